@@ -48,6 +48,9 @@ type Sub struct {
 	// Nested is a sub-channel of the sub-channel (only when the sub-channel stays open): the whole
 	// tree is then settled through a dispute of the ledger channel.
 	Nested *Nested `json:"nested_sub_channel,omitempty"`
+	// Second is another sub-channel of the ledger channel, opened after the first one's payments
+	// (only when the first stays open): the disputed ledger channel then locks two sub-channels.
+	Second *Nested `json:"second_sub_channel,omitempty"`
 }
 
 // Nested describes a sub-channel of the sub-channel.
@@ -134,6 +137,13 @@ func Generate(rng *rand.Rand) Scenario {
 			}
 			sub.Nested = ne
 		}
+		if !sub.Close && rng.Intn(3) == 0 {
+			se := &Nested{Init: make([][]int64, sc.Assets), Steps: steps(rng.Intn(4))}
+			for a := range se.Init {
+				se.Init[a] = []int64{int64(rng.Intn(6)), int64(rng.Intn(6))}
+			}
+			sub.Second = se
+		}
 		sc.Sub = sub
 		if !sub.Close {
 			// a ledger channel with an open sub-channel cannot be closed cooperatively
@@ -155,6 +165,7 @@ type Run struct {
 	Ch       [2]*client.Channel // ledger channel objects of A and B
 	SubCh    [2]*client.Channel
 	NestedCh [2]*client.Channel
+	SecondCh [2]*client.Channel
 	Before   [2][]*big.Int // on-chain balances before opening, per asset
 	TimedOut bool
 	Failed   string // an operation failed in a way that makes the run undecidable
@@ -483,6 +494,36 @@ func (r *Run) subChannel() bool {
 				return false
 			}
 		}
+	}
+	if sub.Second != nil && !r.SkipRest {
+		se := sub.Second
+		cur := r.Ch[0].State()
+		for a := range se.Init {
+			for i := range se.Init[a] {
+				if cur.Balances[a][i].Cmp(big.NewInt(se.Init[a][i])) < 0 {
+					se.Init[a][i] = cur.Balances[a][i].Int64()
+				}
+			}
+		}
+		sch2, err := r.P[0].OpenSubChannel(r.Ch[0], se.Init, r.Sc.Dur, opts...)
+		if err != nil {
+			r.fail("opening the second sub-channel", err)
+			return false
+		}
+		r.SecondCh[0] = r.P[0].AwaitChannel(sch2.ID())
+		r.SecondCh[1] = r.P[1].AwaitChannel(sch2.ID())
+		if r.SecondCh[0] == nil || r.SecondCh[1] == nil {
+			r.Failed = "the peer never registered the second sub-channel"
+			return false
+		}
+		r.logf("second sub-channel %x opened", sch2.ID())
+		for _, st := range se.Steps {
+			r.pay(r.SecondCh, st, false)
+			if r.Failed != "" {
+				return false
+			}
+		}
+		r.hook("after-second-sub-steps")
 	}
 	if !sub.Close || r.SkipRest {
 		return true
